@@ -78,6 +78,36 @@ def cells():
             stages = [("decorator-creation", lambda _: icontract.require(lambda: True)),
                       ("decoration", lambda dec, p=params: dec(define(p, "function")))]
             out.append(("twin:reserved-param/%s/%s" % (name, fname), (None, None), stages))
+    # 1a. the reserved parameter sits on an OVERRIDE that carries no contract of its own: it becomes a checked callable
+    # when the meta-class hands it the contracts of the base, and is rejected at that moment (class definition)
+    for name in ("_ARGS", "_KWARGS"):
+        for fname, tmpl in forms.items():
+            for member in ("method", "staticmethod", "property-setter"):
+                for dname in ("require", "ensure"):
+                    def mk(name=name, tmpl=tmpl, member=member, dname=dname, reserved=True):
+                        n = name if reserved else "other"
+                        params = tmpl.format(n=n)
+                        g = {"icontract": icontract}
+                        if member == "property-setter":
+                            # setters take exactly one value: only the plain form places the name there
+                            src = ("class Base(icontract.DBC):\n    @property\n    def p(self):\n        return 1\n"
+                                   "    @p.setter\n    @icontract.%s(lambda: True)\n    def p(self, value):\n        pass\n"
+                                   "class Sub(Base):\n    @property\n    def p(self):\n        return 2\n"
+                                   "    @p.setter\n    def p(self, %s):\n        pass\n" % (dname, n))
+                        else:
+                            first = "" if member == "staticmethod" else "self, "
+                            deco = "    @staticmethod\n" if member == "staticmethod" else ""
+                            src = ("class Base(icontract.DBC):\n%s    @icontract.%s(lambda: True)\n    def m(%sx=0, **kwargs):\n"
+                                   "        return 1\nclass Sub(Base):\n%s    def m(%s%s):\n        return 2\n" % (
+                                       deco, dname, first, deco, first, params))
+                        exec(src, g)
+                        return g["Sub"]
+                    if member == "property-setter" and fname != "plain":
+                        continue
+                    out.append(("reserved-param-on-override/%s/%s/%s/%s" % (name, fname, member, dname), ("definition", "TypeError"),
+                                [("definition", lambda _, mk=mk: mk())]))
+                    out.append(("twin:reserved-param-on-override/%s/%s/%s/%s" % (name, fname, member, dname), (None, None),
+                                [("definition", lambda _, mk=mk: mk(reserved=False))]))
     # 2. reserved keyword at call
     for name in ("_ARGS", "_KWARGS"):
         for kind in FUNC_KINDS:
